@@ -119,3 +119,24 @@ PROPS['C09'] = dict(
     outside='wire.Struct field lists are covered by C12 (H_field); identity of exotic function types is types.Identical\'s',
     assumptions=COMMON_ASSUME + ['go/printer output of value expressions is stubbed in H_inject'],
 )
+
+
+def cli(entry, pkgs=2, **kw):
+    return spec(entry, pkg=MAIN_PKG, overlay='harness/main', interp=['errors', WIRE_PKG], params=dict(pkgs=pkgs),
+                label='%s[pkgs<=%d]' % (entry, pkgs), replayable=False, **kw)
+
+
+CLI_ASSUME = ['os.Getwd, ioutil.ReadFile/WriteFile, os.Environ, flag.FlagSet.Args, wire.Generate / wire.Load and difflib are nondeterministic stubs constrained only by their contract (listed in harness/main/h_cli.go)',
+              'Generate keeps Content nil for packages with analysis errors except the documented gofmt-failure case (both combinations are in the modelled space)',
+              'difflib returns an empty diff exactly for equal inputs', 'log/fmt output is not the subject']
+
+PROPS['C17'] = dict(
+    level=MC,
+    quick=[cli('H_cli_gen', 2), cli('H_cli_diff', 2), cli('H_cli_check', 2), cli('H_cli_show', 2)],
+    thorough=[cli('H_cli_gen', 3), cli('H_cli_diff', 3), cli('H_cli_check', 3), cli('H_cli_show', 3)],
+    covers={'H_cli_gen': ['gen-exit0', 'gen-exit1', 'gen-reached-generate'], 'H_cli_diff': ['diff-exit0', 'diff-exit1', 'diff-exit2'],
+            'H_cli_check': ['check-exit0', 'check-exit1'], 'H_cli_show': ['show-exit0', 'show-exit1']},
+    bounds_text='invocations over <=2 (quick) / <=3 (thorough) packages; per package symbolic: has errors, has content, write fails, prior file absent/equal/different; Getwd failure, header file given/readable, load failure, output prefix',
+    outside='flag/subcommands plumbing and os.Exit in main(); real go/packages errors; the gen/diff counterexamples are not replayed natively (environment is stubbed)',
+    assumptions=CLI_ASSUME,
+)
